@@ -82,7 +82,7 @@ Section Laws.
 
   Theorem cmp_refl c a : field_cmp_refl -> ovalue_ok c a = true -> spec_cmp I c a a = Some Eq.
   Proof.
-    intros Hr Ha. destruct a as [| | | | | |va xs| | | |]; try discriminate Ha.
+    intros Hr Ha. destruct a as [| | | | | |va xs| | | | |]; try discriminate Ha.
     cbn [ovalue_ok] in Ha. cbn [spec_cmp].
     destruct (oc_get va c) as [[da la]|]; [|discriminate Ha].
     rewrite same_variant_refl, lex_refl by exact Hr. reflexivity.
@@ -93,8 +93,8 @@ Section Laws.
     exists r, spec_cmp I c a b = Some r /\ spec_cmp I c b a = Some (CompOpp r).
   Proof.
     intros Hs Ha Hb.
-    destruct a as [| | | | | |va xs| | | |]; try discriminate Ha.
-    destruct b as [| | | | | |vb ys| | | |]; try discriminate Hb.
+    destruct a as [| | | | | |va xs| | | | |]; try discriminate Ha.
+    destruct b as [| | | | | |vb ys| | | | |]; try discriminate Hb.
     cbn [ovalue_ok] in Ha, Hb. cbn [spec_cmp].
     destruct (oc_get va c) as [[da la]|] eqn:Ea; [|discriminate Ha].
     destruct (oc_get vb c) as [[db lb]|] eqn:Eb; [|discriminate Hb].
@@ -118,9 +118,9 @@ Section Laws.
                      spec_cmp I c a z = Some r3 /\ comp_trans r1 r2 r3.
   Proof.
     intros Ht Hinj Ha Hb Hz.
-    destruct a as [| | | | | |va xs| | | |]; try discriminate Ha.
-    destruct b as [| | | | | |vb ys| | | |]; try discriminate Hb.
-    destruct z as [| | | | | |vz zs| | | |]; try discriminate Hz.
+    destruct a as [| | | | | |va xs| | | | |]; try discriminate Ha.
+    destruct b as [| | | | | |vb ys| | | | |]; try discriminate Hb.
+    destruct z as [| | | | | |vz zs| | | | |]; try discriminate Hz.
     cbn [ovalue_ok] in Ha, Hb, Hz. cbn [spec_cmp].
     destruct (oc_get va c) as [[da la]|] eqn:Ea; [|discriminate Ha].
     destruct (oc_get vb c) as [[db lb]|] eqn:Eb; [|discriminate Hb].
